@@ -27,6 +27,8 @@ func init() {
 			"every cycle of every unbounded loop of the recursive-descent parser consumes a real (known non-EOF) token before it returns to the loop head, or leaves the loop (consume / consume-or-report summaries with and without a peeked token, report.HasErrors() edges). " +
 			"Not decided: absence of panics on arbitrary bytes, positions inside the input, print∘parse round-trip equality as values, limit accounting (value level), depth of recursion.",
 		Mutants: []Mutant{
+			{Name: "shorthand query chosen although the operation has directives (the repaired defect F21)", File: "v2/pkg/astprinter/astprinter.go", Rule: "C05-R7", Key: "EnterOperationDefinition/query-keyword-guard",
+				Old: "\t\tif hasName || hasVariables || hasDirectives {", New: "\t\t_ = hasDirectives\n\t\tif hasName || hasVariables {"},
 			{Name: "SimpleWalker no longer visits the directives of a schema definition (seeded change C05-12, sibling view)", File: "v2/pkg/astvisitor/simplevisitor.go", Rule: "C05-R6", Key: "walker-siblings/walkSchemaDefinition",
 				Old: "\tif w.document.SchemaDefinitions[ref].HasDirectives {\n\t\tfor _, i := range w.document.SchemaDefinitions[ref].Directives.Refs {\n\t\t\tw.walkDirective(i)\n\t\t}\n\t}\n", New: ""},
 			{Name: "list value loop no longer leaves on a reported error (hangs on a truncated list)", File: "v2/pkg/astparser/parser.go", Rule: "C05-R5", Key: "Parser.parseValueList/loop1",
@@ -105,6 +107,9 @@ func runC05(r *fw.Run) {
 	// ---- R5 parser termination ------------------------------------------------------------------------
 	r.Rule("C05-R5", "every cycle of every unbounded loop of the recursive-descent parser consumes a real (non-EOF) token before it returns to the loop head, or leaves the loop")
 	checkParserProgress(r, "C05-R5")
+
+	// ---- R7 shorthand query ----------------------------------------------------------------------------
+	shorthandQueryGuard(r)
 }
 
 // checkProgress implements the loop-progress rule for one package and returns the number of loops examined.
@@ -1348,4 +1353,106 @@ func isPureLookahead(fi *fw.FuncInfo) bool {
 		return true
 	})
 	return pure
+}
+
+// shorthandQueryGuard (R7): the printer may omit the `query` keyword only for a bare selection set. The condition under
+// which it writes the keyword has to look at every optional part of an operation definition that is printed between the
+// keyword and the selection set: the name and every Has… flag of ast.OperationDefinition other than HasSelections.
+// Otherwise an anonymous query that carries the forgotten part is printed without its keyword — text that does not parse.
+func shorthandQueryGuard(r *fw.Run) {
+	p := r.Prog
+	r.Rule("C05-R7", "the printer writes the `query` keyword under a condition that reads the name and every Has… flag of ast.OperationDefinition except HasSelections (the shorthand form is only valid for a bare selection set)")
+	fi := p.Func("astprinter", "printVisitor.EnterOperationDefinition")
+	opDef := p.Named("ast", "OperationDefinition")
+	if fi == nil || opDef == nil {
+		r.Error("C05-R7: printVisitor.EnterOperationDefinition / ast.OperationDefinition not found")
+		return
+	}
+	info := fi.Info()
+	required := map[string]bool{"Name": true}
+	st := opDef.Underlying().(*types.Struct)
+	for i := 0; i < st.NumFields(); i++ {
+		f := st.Field(i)
+		if b, ok := f.Type().Underlying().(*types.Basic); ok && b.Info()&types.IsBoolean != 0 && strings.HasPrefix(f.Name(), "Has") && f.Name() != "HasSelections" {
+			required[f.Name()] = true
+		}
+	}
+	// fields of OperationDefinition an expression depends on, through local variables
+	var fieldsOf func(e ast.Node, seen map[types.Object]bool, out map[string]bool)
+	fieldsOf = func(e ast.Node, seen map[types.Object]bool, out map[string]bool) {
+		fw.WalkAll(e, func(nd ast.Node) bool {
+			switch x := nd.(type) {
+			case *ast.SelectorExpr:
+				if v, sel := fw.Field(info, x); v != nil {
+					if _, tn := fw.FieldOwner(info, sel); tn == "OperationDefinition" {
+						out[v.Name()] = true
+					}
+				}
+			case *ast.Ident:
+				o := info.Uses[x]
+				if v, isVar := o.(*types.Var); isVar && !v.IsField() && !seen[o] && o.Parent() != o.Pkg().Scope() {
+					seen[o] = true
+					fw.WalkAll(fi.Decl.Body, func(m ast.Node) bool {
+						if as, ok := m.(*ast.AssignStmt); ok {
+							for i, l := range as.Lhs {
+								if id, ok := l.(*ast.Ident); ok && (info.Defs[id] == o || info.Uses[id] == o) && i < len(as.Rhs) {
+									fieldsOf(as.Rhs[i], seen, out)
+								}
+							}
+						}
+						return true
+					})
+				}
+			}
+			return true
+		})
+	}
+	n := 0
+	var walk func(nd ast.Node, guards []ast.Expr)
+	walk = func(nd ast.Node, guards []ast.Expr) {
+		switch x := nd.(type) {
+		case *ast.IfStmt:
+			walk(x.Body, append(append([]ast.Expr{}, guards...), x.Cond))
+			if x.Else != nil {
+				walk(x.Else, guards)
+			}
+			return
+		case *ast.CallExpr:
+			if len(x.Args) == 1 {
+				if o := fw.RootObj(info, x.Args[0]); o != nil && o.Name() == "QUERY" && o.Pkg() != nil && o.Pkg().Name() == "literal" {
+					n++
+					got := map[string]bool{}
+					for _, g := range guards {
+						fieldsOf(g, map[types.Object]bool{}, got)
+					}
+					var missing []string
+					for f := range required {
+						if !got[f] && len(guards) > 0 {
+							missing = append(missing, f)
+						}
+					}
+					sort.Strings(missing)
+					r.Check(len(missing) == 0, "C05-R7", fi.Name()+"/query-keyword-guard", p.Pos(x.Pos()), "the `query` keyword is written under a condition that considers every optional part of the operation",
+						"the decision to omit the keyword ignores "+strings.Join(missing, ", ")+": an anonymous query that has it (e.g. `query @d { a }`) is printed without `query` — `@d {a}` — which does not parse")
+				}
+			}
+		}
+		// generic descent
+		switch x := nd.(type) {
+		case *ast.BlockStmt:
+			for _, s := range x.List {
+				walk(s, guards)
+			}
+		case *ast.ExprStmt:
+			walk(x.X, guards)
+		case *ast.SwitchStmt:
+			walk(x.Body, guards)
+		case *ast.CaseClause:
+			for _, s := range x.Body {
+				walk(s, guards)
+			}
+		}
+	}
+	walk(fi.Decl.Body, nil)
+	r.Expect("C05-R7", "writes of the query keyword", n, 1)
 }
